@@ -28,6 +28,9 @@ pub fn context_alphabet() -> Vec<(&'static str, I)> {
         ("call 1", isa::call_helper(1)),
         ("jeq r0,0,+0", I::new(0x15, 0, 0, 0, 0)),
         ("stxdw [r10-8],r1", I::new(0x7b, 10, 1, -8, 0)),
+        // a zero-opcode slot whose other fields are set: still the second half of a wide load when it
+        // follows one, still not an instruction otherwise
+        ("zero-slot-with-fields", I::new(0, 3, 4, 7, 9)),
     ]
 }
 
@@ -414,6 +417,257 @@ fn enumerate_special(s: &mut Sink, mode: Mode, g: &mut u64) {
     }
 }
 
+/// Programs built by repeating or nesting one construct k times: whatever a rule counts, it must
+/// not confuse occurrences with nesting or overflow a fixed table.
+fn family_programs(thorough: bool) -> Vec<(String, Vec<I>)> {
+    let mut v: Vec<(String, Vec<I>)> = vec![];
+    let kmax = if thorough { 300 } else { 40 };
+    let units: Vec<(&str, Vec<I>)> = vec![
+        ("call-helper", vec![isa::call_helper(1)]),
+        ("ja+0", vec![isa::ja(0)]),
+        ("jeq+0", vec![I::new(0x15, 0, 0, 0, 0)]),
+        ("lddw", isa::lddw(3, 0x1122334455667788).to_vec()),
+        ("stxdw", vec![I::new(0x7b, 10, 1, -8, 0)]),
+        ("ldxdw-stack", vec![I::new(0x7b, 10, 1, -8, 0), I::new(0x79, 2, 10, -8, 0)]),
+        ("xadddw", vec![I::new(0x7b, 10, 1, -8, 0), I::new(0xdb, 10, 1, -8, 0)]),
+        ("div64-imm", vec![I::new(0x37, 0, 0, 0, 3)]),
+        ("be16", vec![I::new(0xdc, 0, 0, 0, 16)]),
+        ("neg64", vec![I::new(0x87, 0, 0, 0, 0)]),
+    ];
+    for k in 1..=kmax {
+        for (name, u) in &units {
+            let mut p = vec![isa::mov64i(0, 0), isa::mov64i(1, 0)];
+            for _ in 0..k {
+                p.extend(u.iter());
+            }
+            p.push(isa::EXIT);
+            v.push((format!("{k}x{name}"), p));
+        }
+        // k sequential local calls to one shared callee (run-time depth 1)
+        let mut p = vec![isa::mov64i(0, 0)];
+        for i in 0..k {
+            p.push(isa::call_local((k - i) as i32)); // over the remaining calls and the exit
+        }
+        p.push(isa::EXIT);
+        p.push(isa::add64i(0, 1));
+        p.push(isa::EXIT);
+        v.push((format!("{k}x-local-call-sites"), p));
+    }
+    // chains: f_i calls f_{i+1}; the innermost returns (depth d), forward and backward layout
+    for d in 1..=12usize {
+        let mut p = vec![isa::mov64i(0, 0), isa::call_local(1), isa::EXIT];
+        for _ in 1..d {
+            p.push(isa::call_local(1));
+            p.push(isa::EXIT);
+        }
+        p.push(isa::add64i(0, 1));
+        p.push(isa::EXIT);
+        v.push((format!("chain-depth-{d}"), p));
+        // bounded recursion: f decrements r6 and calls itself until 0
+        let p = vec![isa::mov64i(0, 0), isa::mov64i(6, d as i32), isa::call_local(1), isa::EXIT,
+                     I::new(0x15, 6, 0, 2, 0), isa::add64i(6, -1), isa::call_local(-3), isa::add64i(0, 1), isa::EXIT];
+        v.push((format!("recursion-depth-{d}"), p));
+    }
+    v
+}
+
+fn families(s: &mut Sink, mode: Mode, g: &mut u64) {
+    let thorough = s.tier == Tier::Thorough;
+    let bufs = Bufs { pkt: Buf::new(16, 0), mb: Buf::new(32, 0) };
+    let fams = family_programs(thorough);
+    for chunk in fams.chunks(16) {
+        let idx = *g;
+        *g += 1;
+        if !s.take(idx) {
+            continue;
+        }
+        for (name, prog) in chunk {
+            let bytes = isa::enc(prog);
+            s.count("evaluations", 1);
+            s.count("states", 1);
+            match mode {
+                Mode::C06 => {
+                    s.count("transitions", 1);
+                    s.count("traces_validated_against_impl", 1);
+                    if c06_check(s, &bytes, 0, true) {
+                        s.count("distinct_nontrivial", 1);
+                    }
+                }
+                Mode::C05 => {
+                    if rbpf::EbpfVmMbuff::new(Some(&bytes)).is_ok() {
+                        s.count("distinct_nontrivial", 1);
+                        c05_check_budget(s, &bytes, 0, &bufs, 20_000, name);
+                    }
+                }
+                Mode::C12 => {
+                    if rbpf::EbpfVmMbuff::new(Some(&bytes)).is_ok() {
+                        s.count("distinct_nontrivial", 1);
+                        c12_check(s, &bytes, 0, Eng::Jit, false);
+                        if !thorough || prog.len() <= 200 {
+                            c12_check(s, &bytes, 0, Eng::Cl, false);
+                        }
+                    }
+                }
+            }
+        }
+    }
+    s.done(&format!("families: 1..={} repetitions of 11 constructs (incl. local-call sites), call chains and bounded recursion of depth 1..=12", if thorough { 300 } else { 40 }));
+    if mode == Mode::C05 {
+        // far local calls from call sites beyond instruction 65535 (70000-instruction programs)
+        for c in isaeng::l4_cases(false, Eng::Interp).into_iter().filter(|c| c.variant == 4) {
+            let idx = *g;
+            *g += 1;
+            if !s.take(idx) {
+                continue;
+            }
+            let Some(prog) = isaeng::l4_program(&c) else { continue };
+            let bytes = isa::enc(&prog);
+            s.count("evaluations", 1);
+            s.count("states", 1);
+            s.count("distinct_nontrivial", 1);
+            c05_check_budget(s, &bytes, c.p, &bufs, 400_000, "far-local-call");
+        }
+        // the same over a body of wide loads: every odd slot below the call site is the second half
+        // of a wide load, so a return address that loses its high bits lands on a non-instruction
+        for pcall in [65_534usize, 65_536, 65_600, 69_000] {
+            let idx = *g;
+            *g += 1;
+            if !s.take(idx) {
+                continue;
+            }
+            let n = 70_000usize;
+            let mut prog: Vec<I> = Vec::with_capacity(n + 3);
+            let l = isa::lddw(3, 0x1122334455667788);
+            while prog.len() < n {
+                if prog.len() == pcall {
+                    prog.push(isa::call_local((n - pcall) as i32));
+                    prog.push(isa::mov64i(4, 0));
+                } else {
+                    prog.push(l[0]);
+                    prog.push(l[1]);
+                }
+            }
+            prog.push(isa::EXIT);
+            prog.push(isa::mov64i(0, 1));
+            prog.push(isa::EXIT);
+            let bytes = isa::enc(&prog);
+            s.count("evaluations", 1);
+            s.count("states", 1);
+            s.count("distinct_nontrivial", 1);
+            c05_check_budget(s, &bytes, pcall, &bufs, 200_000, "far-local-call-over-wide-loads");
+        }
+        s.done("far local calls (70000-instruction programs, call sites on both sides of instruction 65535; bodies of fillers and of wide loads)");
+    }
+    if mode == Mode::C12 {
+        // helper ids over the 32-bit range, registered and called
+        let idx = *g;
+        *g += 1;
+        if s.take(idx) {
+            for id in [0u32, 1, 5, 0x7fff_ffff, 0x8000_0000, 0xd744_9092, 0xffff_ffff] {
+                let bytes = isa::enc(&[isa::mov64i(1, 1), I::new(0x85, 0, 0, 0, id as i32), isa::EXIT]);
+                for eng in [Eng::Jit, Eng::Cl] {
+                    for registered in [true, false] {
+                        let r = catch(|| {
+                            let mut vm = AnyVm::new(VmKind::NoData, Some(&bytes)).map_err(|e| format!("load: {e}"))?;
+                            if registered {
+                                vm.register_helper(id, h2)?;
+                            } else {
+                                vm.register_helper(id ^ 0x4000_0000, h2)?;
+                            }
+                            vm.compile(eng)
+                        });
+                        s.count("evaluations", 1);
+                        s.count("states", 1);
+                        s.count("traces_validated_against_impl", 1);
+                        match r {
+                            Ok(Ok(())) => s.outcome("compile-ok", 1),
+                            Ok(Err(e)) if e.starts_with("load") => s.violation("verifier/helper-id/rejects-template", e, json!({"kind":"none"})),
+                            Ok(Err(_)) => s.outcome("compile-err (an error value: allowed by C12)", 1),
+                            Err(m) => s.violation(&format!("{}/helper-id/compile-{}", eng.name(), panic_class(&m)), format!("compiling `call {id:#x}` with that id {} panicked: {m}", if registered { "registered" } else { "not registered" }), json!({"kind":"none"})),
+                        }
+                    }
+                }
+            }
+            s.done("helper ids 0, 1, 5, 2^31-1, 2^31, 0xd7449092, 2^32-1 (registered / not registered)");
+        }
+        // one VM object, two programs: compile A, set_program(B), compile B (every ordered pair of sizes)
+        let sizes = [1usize, 10, 100, 500, 580, 600, 700, 1200, 3000];
+        for (ui, (uname, unit)) in sizing_units().into_iter().enumerate() {
+            let idx = *g;
+            *g += 1;
+            if !s.take(idx) {
+                continue;
+            }
+            if !thorough && ui % 2 == 1 {
+                continue;
+            }
+            let progs: Vec<Vec<u8>> = sizes.iter().map(|n| {
+                let mut p = vec![];
+                for _ in 0..*n {
+                    p.extend(unit.iter());
+                }
+                p.push(isa::EXIT);
+                isa::enc(&p)
+            }).collect();
+            for kind in [VmKind::NoData, VmKind::Mbuff, VmKind::Fixed(0x40, 0x50)] {
+                for eng in [Eng::Jit, Eng::Cl] {
+                    if eng == Eng::Cl && !matches!(kind, VmKind::NoData) && !thorough {
+                        continue;
+                    }
+                    for a in 0..sizes.len() {
+                        for b in 0..sizes.len() {
+                            let r = catch(|| {
+                                let mut vm = AnyVm::new(kind, Some(&progs[a])).map_err(|e| format!("load: {e}"))?;
+                                vm.register_helper(1, h1)?;
+                                vm.compile(eng)?;
+                                vm.set_program(&progs[b], (0x40, 0x50)).map_err(|e| format!("load: {e}"))?;
+                                vm.compile(eng)
+                            });
+                            s.count("evaluations", 1);
+                            s.count("states", 1);
+                            s.count("transitions", 2);
+                            s.count("traces_validated_against_impl", 1);
+                            s.count("distinct_nontrivial", 1);
+                            match r {
+                                Ok(Ok(())) => s.outcome("compile-ok", 1),
+                                Ok(Err(e)) if e.starts_with("load") => s.violation(&format!("verifier/recompile-{uname}/rejects-template"), e, json!({"kind":"none"})),
+                                Ok(Err(_)) => s.outcome("compile-err (an error value: allowed by C12)", 1),
+                                Err(m) => s.violation(&format!("{}/recompile-{uname}/compile-{}", eng.name(), panic_class(&m)), format!("{} VM: compile {} x {uname}, set_program {} x {uname}, compile: panicked: {m}", vm::kind_name(kind), sizes[a], sizes[b]), json!({"kind":"none"})),
+                            }
+                        }
+                    }
+                }
+            }
+        }
+        s.done("one VM object: compile, set_program, compile again, for every ordered pair of 9 program sizes");
+    }
+}
+
+/// C05: one interpretation per VM kind with a given instruction budget.
+fn c05_check_budget(s: &mut Sink, bytes: &[u8], pos: usize, bufs: &Bufs, budget: u64, class: &str) {
+    for kind in [VmKind::NoData, VmKind::Raw] {
+        let r = catch(|| {
+            let mut vm = AnyVm::new(kind, Some(bytes)).map_err(|e| format!("load: {e}"))?;
+            vm.register_helper(1, h1)?;
+            bufs.pkt.fill(&[0x11u8; 16]);
+            rbpf::verif_hooks::set_insn_budget(Some(budget));
+            let mem = if kind == VmKind::NoData { vm::empty_raw() } else { bufs.pkt.raw() };
+            let out = vm.exec(Eng::Interp, mem, vm::empty_raw());
+            rbpf::verif_hooks::set_insn_budget(None);
+            Ok::<_, String>(out)
+        });
+        rbpf::verif_hooks::set_insn_budget(None);
+        s.count("traces_validated_against_impl", 1);
+        s.count("transitions", 1);
+        match r {
+            Ok(Ok(Ok(_))) => s.outcome("value", 1),
+            Ok(Ok(Err(e))) => s.outcome(if e.contains("[verif] instruction budget") { "budget" } else { "error" }, 1),
+            Ok(Err(e)) => s.outcome(if e.starts_with("load") { "load-error" } else { "setup-error" }, 1),
+            Err(m) => s.violation(&format!("interp/{class}/{}", panic_class(&m)), format!("interpreting a verifier-accepted program panicked: {m}"), if bytes.len() <= 8192 { json!({"kind":"interp-total","prog":hex(bytes),"vm":vm::kind_name(kind),"helpers":1,"focus":pos,"budget":budget,"class":class}) } else { json!({"kind":"none"}) }),
+        }
+    }
+}
+
 fn sizing_units() -> Vec<(&'static str, Vec<I>)> {
     vec![
         ("mov64-imm", vec![isa::mov64i(3, 1)]),
@@ -663,6 +917,7 @@ pub fn run(s: &mut Sink, mode: Mode) {
     s.meta.insert("assumptions".into(), json!(["reference predicate in mc/src/refverif.rs transcribes the C06 statement", "rule interactions that need two full-alphabet instructions at once are covered only through the context alphabet"]));
     let mut g = 0u64;
     enumerate_special(s, mode, &mut g);
+    families(s, mode, &mut g);
     if mode == Mode::C12 {
         c12_sizing(s, &mut g);
     }
@@ -689,7 +944,10 @@ pub fn replay_interp_total(v: &Value) -> Vec<String> {
     let mut s = Sink::new("replay", Tier::Quick, 0, 1, None, None, 3600);
     let bufs = Bufs { pkt: Buf::new(16, 0), mb: Buf::new(32, 0) };
     if rbpf::EbpfVmMbuff::new(Some(&bytes)).is_ok() {
-        c05_check(&mut s, &bytes, v["focus"].as_u64().unwrap_or(0) as usize, &bufs);
+        match v["budget"].as_u64() {
+            Some(b) => c05_check_budget(&mut s, &bytes, 0, &bufs, b, v["class"].as_str().unwrap_or("family")),
+            None => c05_check(&mut s, &bytes, v["focus"].as_u64().unwrap_or(0) as usize, &bufs),
+        }
     }
     collect(s)
 }
